@@ -74,7 +74,12 @@ class Date(FormattableMixin, date):
 
     @property
     def week_of_month(self) -> int:
-        return math.ceil((self.day + self.first_of("month").isoweekday() - 1) / 7)
+        # The weekday of the first of the month is a property of the calendar alone:
+        # first_of("month") on an aware datetime may not land on that day
+        # when its midnight does not exist in the timezone.
+        first_day_of_month = date(self.year, self.month, 1)
+
+        return math.ceil((self.day + first_day_of_month.isoweekday() - 1) / 7)
 
     @property
     def age(self) -> int:
